@@ -89,6 +89,11 @@ pub fn packed_families() -> Vec<Fam> {
     // every pattern longer than a machine word has bits (the Rabin-Karp
     // window is the shortest pattern), and longer than two vectors
     let long = |n: usize, seed: u8| -> Vec<u8> { (0..n).map(|i| b'a' + ((i as u8).wrapping_mul(7).wrapping_add(seed) % 23)).collect() };
+    // shortest pattern exactly as long as / slightly longer than one vector
+    // (16, 32) and than the 256-bit searcher's minimum haystack (35)
+    for n in [15usize, 16, 17, 19, 31, 32, 33, 34, 35, 36] {
+        v.push(fam(&format!("m4-minlen{}", n), vec![long(n, 1), long(n, 5), long(n + 1, 9), long(n, 13)]));
+    }
     v.push(fam("m4-len65-66", vec![long(65, 1), long(66, 5)]));
     v.push(fam("m4-len64-80", vec![long(64, 2), long(80, 9)]));
     v.push(fam("m4-len129-200", vec![long(129, 3), long(200, 11), long(130, 3)]));
